@@ -88,6 +88,10 @@ def gen_case(streams, tier):
         labels.append('verilog')
     if cfg['aw'] > 8 and 'compiled' not in labels and g.random() < 0.5:
         labels.append('compiled')
+    if g.random() < 0.25:
+        labels.append(g.choice(['sim#2', 'fast#2']))     # a second instance of one class
+    if not rom and not covering and cfg.get('variant', 'plain') == 'plain' and cfg['W'] and g.random() < 0.3:
+        cfg['second_mem'] = True     # another memory of the same shape, driven at the same addresses
     i = streams['inputs']
     if covering:
         tape = covering_tape()
@@ -101,7 +105,7 @@ def gen_case(streams, tier):
         faults.append({'kind': 'reject_step', 'at': f.randrange(len(tape)), 'wire': port,
                        'value': world.bad_value(f, w), 'replica': None})
     if cfg['W'] and cfg.get('variant', 'plain') == 'plain' and 'compiled' not in labels \
-            and 'verilog' not in labels and f.random() < 0.4:
+            and 'verilog' not in labels and not cfg.get('second_mem') and f.random() < 0.4:
         for _ in range(f.randint(1, 2)):
             faults.append({'kind': 'storage_poke', 'at': f.randrange(len(tape)),
                            'addr': _addr(f, cfg), 'value': gen.rand_val(f, cfg['bw'])})
@@ -222,10 +226,20 @@ def build(cfg):
                 for c, wa, wd, we in ports:
                     with c:
                         mem[wa] |= pyrtl.MemBlock.EnabledWrite(wd, we)
+        mem2 = None
+        if cfg.get('second_mem'):
+            mem2 = pyrtl.MemBlock(cfg['bw'], cfg['aw'], name='mem_b', max_read_ports=None,
+                                  max_write_ports=None)
+            # same address and enable as port 0 of the first memory, complemented data
+            mem2[blk.wirevector_by_name['wa0']] <<= pyrtl.MemBlock.EnabledWrite(
+                ~blk.wirevector_by_name['wd0'], blk.wirevector_by_name['we0'])
         for r in range(cfg['R']):
             ra = pyrtl.Input(cfg['aw'], 'ra%d' % r)
             o = pyrtl.Output(cfg['bw'], 'rd%d' % r)
             o <<= mem[ra]
+            if mem2 is not None:
+                o2 = pyrtl.Output(cfg['bw'], 'sd%d' % r)
+                o2 <<= mem2[ra]
     return blk, mem
 
 
@@ -235,6 +249,7 @@ class Model(object):
         self.cfg = cfg
         self.rom = rom_func(cfg['rom'], cfg['bw']) if cfg['rom'] else None
         self.mem = {int(a): v for a, v in cfg['init'].items()}
+        self.mem2 = {}
         self.prev = None
         dv = cfg.get('default', 0)
         if cfg.get('variant') == 'registered' and dv:
@@ -248,6 +263,8 @@ class Model(object):
         for r in range(self.cfg['R']):
             a = cyc['ra%d' % r]
             out['rd%d' % r] = self.rom(a) if self.rom else self.mem.get(a, self.cfg.get('default', 0))
+            if self.cfg.get('second_mem'):
+                out['sd%d' % r] = self.mem2.get(a, self.cfg.get('default', 0))
         variant = self.cfg.get('variant', 'plain')
         if variant == 'registered':
             src = self.prev          # the port registers hold last cycle's inputs (0 at reset)
@@ -263,6 +280,8 @@ class Model(object):
                         self.mem[cyc['wa%d' % w]] = cyc['wd%d' % w]
                     break
         else:
+            if self.cfg.get('second_mem') and cyc['we0']:
+                self.mem2[cyc['wa0']] = ~cyc['wd0'] & mask(self.cfg['bw'])
             for w in range(self.cfg['W']):
                 if cyc['we%d' % w]:
                     self.mem[cyc['wa%d' % w]] = cyc['wd%d' % w]
@@ -272,7 +291,7 @@ class Model(object):
 class VReplica(object):
     """The exported Verilog under VSim, presented with the Replica interface."""
 
-    def __init__(self, blk, cfg):
+    def __init__(self, blk, cfg, mem_id=None):
         import io
         import pyrtl
         from ..vsim import VSim
@@ -283,10 +302,14 @@ class VReplica(object):
         self.vs = VSim(self.text)
         mems = self.vs.memory_names()
         if not cfg['rom']:
-            if len(mems) != 1:
-                raise HarnessError('expected one memory array in the Verilog, got %r' % mems)
+            want = 2 if cfg.get('second_mem') else 1
+            if len(mems) != want:
+                raise HarnessError('expected %d memory arrays in the Verilog, got %r' % (want, mems))
+            first = 'mem_%d' % mem_id
+            if first not in mems:
+                raise HarnessError('no array %s in the Verilog: %r' % (first, mems))
             for a, v in cfg['init'].items():
-                self.vs.poke_mem(mems[0], int(a), v)
+                self.vs.poke_mem(first, int(a), v)
         self.rows = []
         self.pos = 0
         self.label = 'verilog'
@@ -324,17 +347,17 @@ def run(case, res):
                     pyrtl.optimize(block=syn)
                 live = replica.Live.from_block(syn)
                 if not cfg['rom']:
-                    key = list(live.mems)[0]
+                    key = [k for k, m_ in sorted(live.mems.items()) if m_.name == 'mem'][0]
                     live.mems = {'m': live.mems[key]}
                     live.sim_mems = {'m': live.sim_mems[key]}
                 r = replica.Replica(lab, replica.make_sim('sim', live, init, tracer=None))
                 r.mem = None if cfg['rom'] else live.mems['m']
                 r.keymem = live.sim_mems.get('m')
             elif lab == 'verilog':
-                r = VReplica(blk, cfg)
+                r = VReplica(blk, cfg, mem.id)
             else:
                 live = replica.Live(blk, {} if cfg['rom'] else {'m': mem})
-                r = replica.Replica(lab, replica.make_sim(lab, live, init, tracer=None))
+                r = replica.Replica(lab, replica.make_sim(lab.split('#')[0], live, init, tracer=None))
                 r.mem = None if cfg['rom'] else mem
         except HarnessError:
             raise
@@ -361,7 +384,7 @@ def run(case, res):
 
     def before(r, pos):
         for f in pokes.get(pos, []):
-            if r.label in ('sim', 'fast', 'synthopt'):
+            if r.label.split('#')[0] in ('sim', 'fast', 'synthopt'):
                 d = r.sim.inspect_mem(r.mem)
                 d[f['addr']] = f['value']
                 res.faults.hit('storage_poke')
